@@ -25,6 +25,8 @@ PROPERTY_META = {
     'C02': dict(not_covered='multiplication, squaring, Montgomery/special reduction, inversion, exponentiation, roots, Legendre symbol, conversions, fp_hlvd_low, '
                 'agreement between algorithm variants: number-theoretic identities modulo p outside the back ends (DESIGN 5 C02); other field sizes than the shipped 256 bits',
                 assumptions=['fp_prime_get() is replaced by a contract returning a ghost modulus: odd, > 2, of the configured digit length - every such p, not only primes']),
+    'C05': dict(not_covered='completeness (signer/verifier agreement), soundness of the verification equation, RSA padding, every scheme other than ECDSA verification '
+                '(EC-Schnorr, BLS, BBS, ZSS, CLS, PSS, vBNN, PoK/SoK, ring and homomorphic signatures), agreement with an independent implementation: these need the group/ring arithmetic of C03/C09'),
     'C07': dict(not_covered='text conversion (bn_read_str/bn_write_str: needs division), field/extension-field/point/target-group encoders and decoders, compression; '
                 'bn_write_bin is verified at 8-bit digits only (64-bit: time-out), bn_read_bin at both'),
     'C08': dict(not_covered='everything that is not a unit of C01/C02/C07/C09/C15 (curve, pairing, protocol and hash modules, simultaneous/batch functions, recodings other than '
@@ -70,4 +72,6 @@ def all_units():
         units_fp.register(add)
         import units_sha
         units_sha.register(add)
+        import units_cp
+        units_cp.register(add)
     return list(_units)
